@@ -5,8 +5,21 @@ import os
 import sys
 
 ROOT = os.path.dirname(os.path.dirname(os.path.abspath(__file__)))
-sys.path.insert(0, ROOT)
-from props.registry import R  # noqa
+import ast
+import glob
+
+R = {}
+for path in sorted(glob.glob(os.path.join(ROOT, "props", "c[0-9]*.py"))):
+    tree = ast.parse(open(path).read())
+    for node in tree.body:
+        if isinstance(node, ast.Assign) and len(node.targets) == 1 and getattr(node.targets[0], "id", None) == "META":
+            meta = ast.literal_eval(node.value)
+            pid = os.path.basename(path)[:-3].upper()
+            for k in ("level", "technique", "text", "note", "design_ref"):
+                assert k in meta, (path, k)
+            meta.setdefault("engine", "vmc")
+            if meta.get("register", True):
+                R[pid] = meta
 
 props = [json.loads(l) for l in open(os.path.join(ROOT, "properties.jsonl")) if l.strip()]
 ids = [p["id"] for p in props]
